@@ -11,7 +11,9 @@ RULE = (
     "one run = one seeded swarm configuration (docs, shapes, op weights, value mix, fault arm) and an op list of "
     "write/add/delete row+column/add_table/add_sheet/rename/save/restart(+fixture loads, +write faults) executed against the "
     "real library and a list-of-lists model in lock-step; every table of every open document is compared cell by cell "
-    "(class, typed value, row/col) after EVERY op and again on the reopened file. distinct = distinct event-log digest; "
+    "(class, typed value, row/col) after EVERY op and again on the reopened file. Every third run index is a bounded-exhaustive stratum: the "
+    "j-th of all 6,174 op sequences of length 1..3 over an 18-op alphabet on a tiny table (4 shape variants), then save+restart; a thorough batch covers them all. "
+    "distinct = distinct event-log digest; "
     "non-trivial = the run completed at least one save->restart whose reopened grid was compared and contained >=1 structural edit or out-of-bounds write"
 )
 
@@ -91,7 +93,59 @@ class Gen:
         return V.gen_text(rng, False)[:30]
 
 
+ENUM_ALPHABET = [
+    {"op": "write", "r": 0, "c": 0}, {"op": "write", "r": 1, "c": 1}, {"op": "write", "r": 2, "c": 2}, {"op": "write", "r": 0, "c": 3},
+    {"op": "add_row", "n": 1}, {"op": "add_row", "n": 1, "at": 0}, {"op": "add_row", "n": 2, "at": 1, "dv": True},
+    {"op": "add_col", "n": 1}, {"op": "add_col", "n": 1, "at": 0}, {"op": "add_col", "n": 2, "at": 1, "dv": True},
+    {"op": "del_row", "n": 1}, {"op": "del_row", "n": 1, "at": 0}, {"op": "del_row", "n": 2, "at": 1},
+    {"op": "del_col", "n": 1}, {"op": "del_col", "n": 1, "at": 0}, {"op": "del_col", "n": 2, "at": 1},
+    {"op": "save", "slot": "f0"}, {"op": "add_table"},
+]
+ENUM_TOTAL = sum(len(ENUM_ALPHABET) ** k for k in (1, 2, 3))
+
+
+def enum_history(j: int):
+    """The j-th history in the enumeration of all op sequences of length 1..3 over ENUM_ALPHABET."""
+    n = len(ENUM_ALPHABET)
+    j %= ENUM_TOTAL
+    for k in (1, 2, 3):
+        if j < n**k:
+            seq = []
+            for _ in range(k):
+                seq.append(ENUM_ALPHABET[j % n])
+                j //= n
+            return seq
+        j -= n**k
+    return []
+
+
+def gen_enumerated(seed: int, tier: str, j: int):
+    """Bounded-exhaustive stratum: every history of <= 3 ops on a tiny table (2x2 or 3x2, headers 0/1), then save+restart."""
+    cfg = {"property": PROPERTY, "aspects": ["grid", "names"], "profile": "grid", "_mix": {"i": 1}, "_long": False, "fault_arm": False, "enumerated": j % ENUM_TOTAL}
+    g = Gen(seed, tier, cfg)
+    variant = (j // ENUM_TOTAL) % 4
+    rows, cols, hr, hc = [(2, 2, 0, 0), (3, 2, 1, 1), (2, 3, 1, 0), (1, 1, 0, 0)][variant]
+    g.emit({"op": "new_doc", "rows": rows, "cols": cols, "hr": hr, "hc": hc})
+    k = 0
+    for o in enum_history(j):
+        o = dict(o)
+        o.update({"d": 0, "s": 0, "t": 0})
+        if o["op"] == "write":
+            k += 1
+            o["v"] = V.enc([k, f"v{k}", k + 0.5, True][k % 4])
+        if o.get("dv") is True:
+            o["dv"] = V.enc("d")
+        if o["op"] == "add_table":
+            o.update({"rows": 2, "cols": 2})
+        g.emit(o)
+    g.emit({"op": "save", "d": 0, "slot": "f1"})
+    g.emit({"op": "restart", "d": 0, "slot": "f1"})
+    return cfg, g.ops
+
+
 def gen(seed: int, tier: str, idx=None):
+    if idx is not None and idx % 3 == 0:
+        return gen_enumerated(seed, tier, idx // 3)
     rng0 = substream(seed, "swarm")
     cfg = {"property": PROPERTY, "aspects": ["grid", "names"], "profile": "grid"}
     kinds = ["s", "b", "i", "f", "dt", "td"]
